@@ -1545,6 +1545,7 @@ func (x *exec) havocModifies(s, old *State, cl *Clause, blk *Block, fn *ssa.Func
 			for _, key := range sortedSortKeys(e.heapSorts) {
 				s.heap[key] = c.Fresh("mod.H{"+key+"}", e.heapSorts[key])
 			}
+			e.addHavoc(s, "", true)
 			continue
 		}
 		if strings.HasPrefix(item, "heap:") {
@@ -1552,11 +1553,12 @@ func (x *exec) havocModifies(s, old *State, cl *Clause, blk *Block, fn *ssa.Func
 			key := strings.TrimPrefix(item, "heap:")
 			for _, k := range sortedSortKeys(e.heapSorts) {
 				so := e.heapSorts[k]
-				if k == key || strings.HasPrefix(k, key+"#") {
+				if keyMatches(key, k) {
 					e.noteWrite(s, k, wtarget{kind: wAll})
 					s.heap[k] = c.Fresh("mod.H{"+k+"}", so)
 				}
 			}
+			e.addHavoc(s, key, false)
 			continue
 		}
 		wild := strings.Contains(item, "[_]") || strings.Contains(item, "[__]")
